@@ -52,8 +52,9 @@ pub fn until_next_unindented(input: &str, at_least_until: usize, fallback_len: u
         prev_was_newline = ch == '\n';
     }
 
-    // No match found, use fallback
-    input[..input.len().min(fallback_len)].trim()
+    // No match found, use fallback. Leading line breaks are kept: the caller numbers the
+    // lines of the excerpt starting from the line of its first byte.
+    input[..input.len().min(fallback_len)].trim_end()
 }
 
 pub fn hex_to_bools(c: char) -> [bool; 4] {
